@@ -471,6 +471,8 @@ func checkSystemSchema(control *controlConn) (bool, error) {
 
 // Given a map that represents a row from either system.local or system.peers
 // return as much information as we can in *HostInfo
+var errNoValidConnectAddress = errors.New("no valid connect address for host")
+
 func (s *Session) hostInfoFromMap(row map[string]interface{}, host *HostInfo) (*HostInfo, error) {
 	const assertErrorMsg = "Assertion failed for %s"
 	var ok bool
@@ -583,6 +585,9 @@ func (s *Session) hostInfoFromMap(row map[string]interface{}, host *HostInfo) (*
 		// Not sure what the port field will be called until the JIRA issue is complete
 	}
 
+	if host.invalidConnectAddr() {
+		return nil, fmt.Errorf("%w: %v", errNoValidConnectAddress, host)
+	}
 	ip, port := s.cfg.translateAddressPort(host.ConnectAddress(), host.port)
 	host.connectAddress = ip
 	host.port = port
@@ -653,7 +658,11 @@ func (r *ringDescriber) getClusterPeerInfo(localHost *HostInfo) ([]*HostInfo, er
 	for _, row := range rows {
 		// extract all available info about the peer
 		host, err := r.session.hostInfoFromMap(row, &HostInfo{port: r.session.cfg.Port})
-		if err != nil {
+		if errors.Is(err, errNoValidConnectAddress) {
+			// a peer without any usable address is ignored like any other invalid peer
+			r.session.logger.Printf("Found invalid peer: %v, this host will be ignored", err)
+			continue
+		} else if err != nil {
 			return nil, err
 		} else if !isValidPeer(host) {
 			// If it's not a valid peer
